@@ -98,3 +98,16 @@ func init() {
 		}
 	})
 }
+
+func init() {
+	genExtras["C09"] = append(genExtras["C09"], func(g *G) {
+		for _, la := range []int{1 << 16, 1<<20 + 1, 1 << 24} {
+			g.emit("cmpuptoprobe %d %d", la, g.intn(1000))
+		}
+		if g.thorough() {
+			for _, la := range []int{1<<28 - 1, 1 << 28, 1<<28 + 9, 1<<29 + 3} {
+				g.emit("cmpuptoprobe %d %d", la, g.intn(1000))
+			}
+		}
+	})
+}
